@@ -38,7 +38,8 @@ func goid() int64 {
 	return -1
 }
 
-// two sets ordered by address: A (lock 0) below B (lock 1)
+// two sets for the stress and race runs (which of them is called A does not matter there; the hook is
+// left alone: goroutines of an earlier run may still be reading it)
 func twoSets() (a, b mapset.Set) {
 	x, y := mapset.NewSet(1, 2), mapset.NewSet(2, 3)
 	if reflect.ValueOf(x).Pointer() > reflect.ValueOf(y).Pointer() {
@@ -192,7 +193,7 @@ func replaySchedule(ps *propSink, progSpec, schedSpec string) string {
 			sched = append(sched, v)
 		}
 	}
-	a, b := twoSets()
+	a, b := lockrec.OrderedPair() // lock 0 = the set the library locks first, as in the recorded sequences
 	var mu sync.Mutex
 	gidToThread := map[int64]int{}
 	parentOf := map[int]int{} // goroutines spawned by an operation inherit its thread (Iter)
@@ -325,7 +326,8 @@ func replaySchedule(ps *propSink, progSpec, schedSpec string) string {
 
 // ---------------------------------------------------------------------------------
 // stress without the model: every ordered pair of operations on swapped / aliased operands with a
-// writer queued on each set; a watchdog reports goroutines that never return
+// slow reader inside each set and writers queued on each set, the sets an operation hands back used
+// straight away; a watchdog reports goroutines that never return
 
 func stressPairs(ps *propSink) string {
 	names, _ := lockrec.OpNames()
@@ -340,11 +342,23 @@ func stressPairs(ps *propSink) string {
 					wg.Add(1)
 					go func() { defer wg.Done(); f() }()
 				}
+				// a slow reader on each set: it is inside the set (read lock held) while the operations start
+				for _, s := range []mapset.Set{a, b} {
+					s := s
+					body(func() {
+						ch := s.Iter()
+						time.Sleep(150 * time.Microsecond)
+						for range ch {
+						}
+					})
+				}
 				for k := 0; k < 6; k++ {
 					k := k
-					body(func() { r, g := operands(pat[0], a, b); callOp(n1, r, g, k) })
+					// a set handed back by an operation is a set like any other: it is written to and read
+					// straight away (callOpM useResult), and that must return too
+					body(func() { r, g := operands(pat[0], a, b); callOpM(n1, r, g, k, true) })
 					body(func() { a.Add(100 + k) })
-					body(func() { r, g := operands(pat[1], a, b); callOp(n2, r, g, k) })
+					body(func() { r, g := operands(pat[1], a, b); callOpM(n2, r, g, k, true) })
 					body(func() { b.Add(100 + k) })
 				}
 				go func() { wg.Wait(); close(done) }()
@@ -380,7 +394,8 @@ func racePairs() string {
 	pairs := 0
 	for _, n1 := range names {
 		for _, n2 := range names {
-			for _, pat := range []string{"AB", "AA"} {
+			// "ab": both operands are sets that an earlier operation handed back, not constructor-made ones
+			for _, pat := range []string{"AB", "AA", "ab"} {
 				racePair(n1, n2, pat)
 				pairs++
 				fmt.Fprintf(os.Stderr, "PAIR-DONE %s(%s) %s\n", n1, pat, n2)
@@ -395,6 +410,10 @@ func racePair(n1, n2, pat string) {
 	for k := 0; k < 3; k++ {
 		a.Add(1000 + k)
 		b.Add(2000 + k)
+	}
+	if pat == "ab" {
+		a, b = a.Clone(), b.Union(mapset.NewSet())
+		pat = "AB"
 	}
 	var wg sync.WaitGroup
 	run := func(f func(i int)) {
